@@ -201,7 +201,8 @@ def build_mock_cascade(ops):
         ofm_shape = Shape4D(list(m.ofm_shape))
         ifm_shape = Shape4D(list(m.ifm_shape))
         w_t = NS(shape=[m.kernel_h, m.kernel_h, m.ifm_shape[3], m.ofm_shape[3]]) if not (m.pool or m.elementwise) else None
-        attrs = {"dilation": (1, m.dilation, m.dilation, 1)}
+        dh_, dw_ = m.dilation if isinstance(m.dilation, (tuple, list)) else (m.dilation, m.dilation)
+        attrs = {"dilation": (1, dh_, dw_, 1)}      # NHWC tuple: height factor at [-3], width factor at [-2]
         if m.skirt is not None:
             attrs["skirt"] = tuple(m.skirt)
         if m.pool:
@@ -423,10 +424,31 @@ def rolling_defect(idx, metas):
 # ------------------------------------------------------------------------------------------------
 # extra network profiles for C10 (used through pipe_common with make_net / sample_config replaced)
 
-C10_PROFILES = ["c10_pad_tall", "c10_slice", "c10_upscale", "c10_dilated", "c10_pool_chain", "c10_slice_upscale"]
+C10_PROFILES = ["c10_pad_tall", "c10_slice", "c10_upscale", "c10_dilated", "c10_pool_chain", "c10_slice_upscale", "c10_asym_dilation"]
+
+
+def source_conv_options(net):
+    """{output tensor name: [kh, kw, stride_h, stride_w, dilation_h, dilation_w]} of the SOURCE model's convolutions, taken from
+    the operator options the generator wrote into the flatbuffer (independent of anything Vela derives)"""
+    out = {}
+    for o in net.ops:
+        if o.kind in ("CONV_2D", "DEPTHWISE_CONV_2D") and o.opts:
+            od = o.opts[1]
+            w = net.tensors[o.inputs[1]].shape
+            out[net.tensors[o.outputs[0]].name] = [int(w[1]), int(w[2]), int(od["StrideH"]), int(od["StrideW"]),
+                                                   int(od["DilationHFactor"]), int(od["DilationWFactor"])]
+    return out
 
 
 def make_net_c10(rng, idx, profile):
+    import json
+
+    net = _make_net_c10(rng, idx, profile)
+    net.desc.append("src_conv=" + json.dumps(source_conv_options(net)))
+    return net
+
+
+def _make_net_c10(rng, idx, profile):
     import netgen
     import pipe_common
 
@@ -447,6 +469,25 @@ def make_net_c10(rng, idx, profile):
         cur = b.resize(cur, 4, "RESIZE_NEAREST_NEIGHBOR", False, False)
         cur = b.conv(cur, 16, (3, 3), (2, 2), (1, 1), "SAME")
         b.net.desc.append("conv3x3 -> RESIZE_NEAREST_NEIGHBOR x4 -> conv3x3/s2, IFM 1x4x4x16")
+        return b.finish([cur])
+    if profile == "c10_asym_dilation":
+        # cascaded SAME convolutions / depthwise with dilation_h != dilation_w, stride 1, tall enough to be striped with --optimise Size
+        b = netgen.B(rng, f"asym{idx}", "int8")
+        h, w, c = rng.choice([40, 48, 56, 64, 80, 96]), rng.choice([16, 24, 32]), rng.choice([16, 32])
+        x = b.input([1, h, w, c])
+        cur = b.conv(x, c, (3, 3), (1, 1), (1, 1), "SAME")
+        dils = []
+        for _ in range(rng.randint(1, 3)):
+            k = rng.choice([2, 3, 3, 5])
+            d = rng.choice([(1, 2), (2, 1), (2, 1), (3, 1), (1, 3), (3, 2), (2, 3)])
+            dils.append((k, d))
+            if rng.random() < 0.6:
+                new = b.conv(cur, c, (k, k), (1, 1), d, "SAME", act=rng.choice([0, 1]))
+            else:
+                new = b.dwconv(cur, (k, k), (1, 1), d, "SAME")
+            cur = new if new is not None else cur
+        cur = b.conv(cur, c, (3, 3), (rng.choice([1, 1, 2]),) * 2, (1, 1), "SAME") or cur
+        b.net.desc.append(f"asym_dilation in={[1, h, w, c]} (k, (dil_h, dil_w))={dils}")
         return b.finish([cur])
     if profile == "c10_pad_tall":
         b = netgen.B(rng, f"pad{idx}", "int8")
@@ -535,6 +576,8 @@ def sample_config_c10(rng, profile):
         return ["--accelerator-config", "ethos-u65-256", "--optimise", "Size"]
     if profile == "known_odd_upscale":
         return ["--accelerator-config", "ethos-u65-256", "--optimise", "Size", "--arena-cache-size", "65536"]
+    if profile == "c10_asym_dilation":
+        return ["--accelerator-config", rng.choice(["ethos-u55-32", "ethos-u55-64", "ethos-u55-128", "ethos-u55-128"]), "--optimise", "Size"]
     if profile in C10_PROFILES:
         acc = rng.choice(["ethos-u55-32", "ethos-u55-64", "ethos-u55-128", "ethos-u55-128", "ethos-u55-256", "ethos-u65-256", "ethos-u65-512"])
         opts = ["--accelerator-config", acc, "--optimise", rng.choice(["Size", "Size", "Size", "Performance"])]
